@@ -74,17 +74,30 @@ func (e *Exec) afterCommitChecks(rec *BlockRec) {
 	if e.stop {
 		return
 	}
-	rec.Panel = BuildPanel(e.Model, e.Env, 80)
+	rec.Panel = BuildPanel(e.Model, e.Env, 40)
 	ph, bad := r0.RunPanel(rec.Panel, 0)
 	if bad != nil {
 		e.viol("C17", "panic.query", "", "a panel query at height %d was answered with a panic: %s", h, bad.Brief())
 		return
 	}
 	rec.PanelH = ph
+	rec.SmallH, _ = r0.RunPanel(smallPanel(rec.Panel), 0)
 	rec.Model = e.Model.Clone()
 	if e.wantSnapshot(h) {
 		e.snapshots[h] = r0.DB.Clone()
 	}
+}
+
+// smallPanel: a short prefix-spread of the panel for the frequent mid-block reads.
+func smallPanel(p []PanelReq) []PanelReq {
+	if len(p) <= 10 {
+		return p
+	}
+	var out []PanelReq
+	for i := 0; i < 10; i++ {
+		out = append(out, p[i*len(p)/10])
+	}
+	return out
 }
 
 func max64(a, b int64) int64 {
@@ -398,10 +411,17 @@ func (e *Exec) pnftSweep(r *Replica, m *Model, height int64, full bool, atH int6
 			continue
 		}
 		var want []string
+		open := false
 		for _, d := range dens {
 			if sameAddr(m.Denoms[d].Owner, a.Addr.String()) {
 				want = append(want, denomKeyM(m.Denoms[d]))
+				if m.Denoms[d].Owner != a.Addr.String() {
+					open = true // a non-canonical (upper-case) spelling of the owner: left open by the documents
+				}
 			}
+		}
+		if open {
+			continue
 		}
 		q := n.Query(qDenomsBy, &pnfttypes.QueryDenomsByOwnerRequest{Owner: a.Addr.String()}, height)
 		if e.qpanic(q, "DenomsByOwner") {
@@ -570,6 +590,20 @@ func (e *Exec) restart(r *Replica, near int64) bool {
 		r.Dead = true
 		return false
 	}
+	if r.Cfg.Pruning != "nothing" {
+		r.PrunedEver = true
+	}
+	if r.LastHeight() == 0 && r.Genesis != nil {
+		// nothing was ever committed: the handshake sends InitChain again
+		req := *r.Genesis
+		_, halt := r.guard("InitChain", func() { r.App.InitChain(req) })
+		if halt != nil {
+			e.viol("C10", "restart.initchain_panic", "", "replica %d: InitChain after a restart on an empty database panicked: %s [%s]", r.ID, halt.Panic, halt.Stack)
+			r.Dead = true
+			return false
+		}
+		e.Stats.Inc("probe.restart.reinit_genesis")
+	}
 	e.Trace.Ev("replica %d restarted at height %d (restart #%d)", r.ID, r.LastHeight(), r.Restarts)
 	return true
 }
@@ -627,6 +661,7 @@ type applyOpts struct {
 	PRNGKey  []uint64
 	Tag      string
 	NoOracle bool
+	HistoryOK bool // every height since genesis is retained on this node (pruning "nothing" throughout)
 }
 
 type applyOutcome struct {
@@ -775,29 +810,29 @@ func (e *Exec) midBlockTasks(n *Node, h int64, boundary int, o applyOpts, rng *P
 	if committed >= 1 && committed <= e.head() && !o.Boot {
 		rec := e.Blocks[committed-1]
 		if rec.Panel != nil {
-			got, bad := n.RunPanel(rec.Panel, 0)
+			got, bad := n.RunPanel(smallPanel(rec.Panel), 0)
 			if bad != nil {
 				e.viol("C17", "panic.query", "", "%s: a query during block %d was answered with a panic: %s", o.Tag, h, bad.Brief())
 				return
 			}
 			e.Stats.Inc("q.panel.latest_midblock")
-			if got != rec.PanelH {
+			if got != rec.SmallH {
 				e.viol("C20", "snapshot.latest_not_committed", "", "%s: queries at 'latest' issued at ABCI boundary %d of block %d do not return the state committed at height %d (a half-applied block is visible or answers are not repeatable)", o.Tag, boundary, h, committed)
 				return
 			}
 		}
 		// a historical height
-		if committed >= 2 && (n.Cfg.Pruning == "" || n.Cfg.Pruning == "nothing") {
+		if committed >= 2 && o.HistoryOK {
 			hh := int64(rng.Range(1, int(committed)-1))
 			old := e.Blocks[hh-1]
 			if old.Panel != nil && hh >= 1 {
-				got, bad := n.RunPanel(old.Panel, hh)
+				got, bad := n.RunPanel(smallPanel(old.Panel), hh)
 				if bad != nil {
 					e.viol("C17", "panic.query", "", "%s: a historical query was answered with a panic: %s", o.Tag, bad.Brief())
 					return
 				}
 				e.Stats.Inc("q.panel.historical_midblock")
-				if got != old.PanelH {
+				if got != old.SmallH {
 					e.viol("C20", "snapshot.historical_changed", "", "%s: queries at fixed height %d issued during block %d differ from the answers recorded right after Commit(%d)", o.Tag, hh, h, hh)
 					return
 				}
@@ -831,7 +866,7 @@ func (e *Exec) applyOn(r *Replica, rec *BlockRec) {
 			crash.N = len(rec.B.Txs) + 1
 		}
 	}
-	o := applyOpts{Crash: crash, MidRate: e.S.Config.MidBlockRate, Storm: r.Cfg.Storm, Boot: r.Boot, PRNGKey: []uint64{uint64(r.ID)}, Tag: fmt.Sprintf("replica %d", r.ID)}
+	o := applyOpts{Crash: crash, MidRate: e.S.Config.MidBlockRate, Storm: r.Cfg.Storm, Boot: r.Boot, PRNGKey: []uint64{uint64(r.ID)}, Tag: fmt.Sprintf("replica %d", r.ID), HistoryOK: !r.PrunedEver && !r.Boot}
 	out := e.applyBlock(r.Node, rec, o)
 	if out.Halt != nil {
 		prop := "C09"
@@ -907,7 +942,7 @@ func (e *Exec) applyOn(r *Replica, rec *BlockRec) {
 		r.Applied = h
 	}
 	// C09: same answers at this height
-	if rec.Panel != nil && !e.stop {
+	if rec.Panel != nil && !e.stop && (h == e.head() && e.inEpilogue || Keyed(e.S.Seed, "rpanel", uint64(r.ID), uint64(h)).Chance(0.3)) {
 		got, bad := r.RunPanel(rec.Panel, 0)
 		if bad != nil {
 			e.viol("C17", "panic.query", "", "replica %d: a query was answered with a panic: %s", r.ID, bad.Brief())
@@ -1121,6 +1156,7 @@ func (e *Exec) epilogue() {
 		r.Crash = nil
 	}
 	e.Trace.Ev("epilogue: faults stop")
+	e.inEpilogue = true
 	for i := 0; i < 3 && !e.stop; i++ {
 		h := e.head() + 1
 		a := e.Env.Accs[i%3]
